@@ -16,7 +16,8 @@ import (
 // C09: explicit presence.
 
 var c09Keys = []reflect.Type{reflect.TypeOf(int(0)), reflect.TypeOf(""), reflect.TypeOf(false), reflect.TypeOf(uint8(0)), reflect.TypeOf(float64(0)), reflect.TypeOf(int64(0)),
-	reflect.StructOf([]reflect.StructField{{Name: "A", Type: reflect.TypeOf(int32(0)), Tag: `plenc:"1"`}, {Name: "B", Type: reflect.TypeOf(""), Tag: `plenc:"2"`}})}
+	reflect.StructOf([]reflect.StructField{{Name: "A", Type: reflect.TypeOf(int32(0)), Tag: `plenc:"1"`}, {Name: "B", Type: reflect.TypeOf(""), Tag: `plenc:"2"`}}),
+	reflect.StructOf([]reflect.StructField{{Name: "A", Type: model.NullIntT, Tag: `plenc:"1"`}, {Name: "B", Type: reflect.TypeOf(""), Tag: `plenc:"2"`}, {Name: "C", Type: model.NullBoolT, Tag: `plenc:"3"`}})}
 
 var c09Nulls = []reflect.Type{model.NullIntT, model.NullBoolT, model.NullFloatT, model.NullStringT, model.NullTimeT}
 
@@ -267,6 +268,24 @@ func c09Case(c *core.Ctx, idx int) {
 		if j%7 != 6 {
 			v.Field(2).Set(m)
 		}
+		if K.Kind() == reflect.Struct {
+			// two keys that differ only in what an invalid null.* field of theirs carries are one key
+			// after a round trip: keep one of them
+			for _, fi := range []int{2, 6} {
+				old := v.Field(fi)
+				if old.IsNil() {
+					continue
+				}
+				canon := reflect.MakeMap(old.Type())
+				for it := old.MapRange(); it.Next(); {
+					ck := cfg.Normalise(it.Key(), "", true)
+					if !canon.MapIndex(ck).IsValid() {
+						canon.SetMapIndex(ck, it.Value())
+					}
+				}
+				old.Set(canon)
+			}
+		}
 		inner := v.Field(4)
 		inner.Field(0).Set(mk(j + 1))
 		l := reflect.MakeSlice(v.Field(3).Type(), 3, 3)
@@ -297,6 +316,19 @@ func c09Case(c *core.Ctx, idx int) {
 		if err != nil || pn != "" {
 			rec.Violation("marshal-error", fmt.Sprintf("[%s] %v %s\n  type %s\n  value %s", tc.name, err, pn, typeString(typ), model.Show(v)), caseExtra(tc, v, nil))
 			return
+		}
+		if j%2 == 1 && len(data) > 1 {
+			// decodes that fail half way, of damaged copies of this very message, come before the good
+			// one: what a failed decode leaves behind in the instance is no part of the next result
+			for k := 0; k < 4; k++ {
+				bad := damage(rv, data)
+				junk := reflect.New(typ)
+				var berr error
+				core.Guard(func() { berr = tc.p.Unmarshal(bad, junk.Interface()) })
+				if berr != nil {
+					rec.Count("failed_decodes_before_a_good_one", 1)
+				}
+			}
 		}
 		out := reflect.New(typ)
 		if err, pn := unmarshal(tc.p, data, out.Interface()); err != nil || pn != "" {
